@@ -1,7 +1,8 @@
 (* C05 End-of-input protocol: `$`, termination in Init, error elsewhere, fused stream. *)
 From LexVerif Require Import Base CharClass RangeMap Regex Spec SpecExec LexSpec Nfa Dfa NfaToDfa NfaSem Codegen
      Runtime ScanIface RulesetSem Driver SpecDef ClassAlgProofs RuntimeProofs RuntimeLemmas ScanOkProofs
-     RulesetSemProofs LexSpecProofs LexSpecFacts EndToEnd Harness.
+     RulesetSemProofs LexSpecProofs LexSpecFacts EndToEnd EndToEndModel Instance Harness.
+From LexVerif.Gen Require Import GenTables GenConsts.
 
 (* fused stream, for EVERY program and action (no hypothesis at all): None is only returned with
    the done flag set, and once it is set every call returns None and changes nothing *)
